@@ -18,6 +18,8 @@ KEYS = [
     ('rsa2048', 'serverX509Key.pem', 'rsa'),
     ('rsa1024', 'clientX509Key.pem', 'rsa'),
     ('rsa-nonca', 'serverRSANonCAKey.pem', 'rsa'),
+    # 8k+1-bit modulus (corpus): 256^k is far above n, so s+n always fits the signature length
+    ('rsa1025', os.path.join(os.environ.get('VERIF_ROOT', '/verif'), 'corpus', 'C10', 'rsa1025.pem'), 'rsa'),
     ('rsapss', 'serverRSAPSSKey.pem', 'rsa-pss'),
     ('rsa-pss-signed-cert', 'serverRSAPSSSigKey.pem', 'rsa'),     # rsaEncryption key (its certificate is PSS-signed)
     ('rsapss-dc', 'serverDelCredRSAPSSKey.pem', 'rsa-pss-restricted'),
@@ -308,7 +310,9 @@ def crafted_pss(key, h, mhash, slen, rng):
     add('canonical', True)
     add('trailer-bd', False, trailer=0xbd)
     add('trailer-cc', False, trailer=0xcc)
-    add('top-bit-set', False, top_bit=True)
+    from tlslite.utils.cryptomath import numBits as _nb
+    if (_nb(key.n) - 1) % 8:          # (emBits a multiple of 8: EM has no unused top bits)
+        add('top-bit-set', False, top_bit=True)
     add('ps-nonzero', False, ps_nonzero=True)
     add('separator-02', False, sep=2)
     add('separator-00', False, sep=0)
